@@ -4,15 +4,19 @@ use crate::runner::Prop;
 pub mod c01;
 pub mod c02;
 pub mod c03;
+pub mod c22;
 pub mod c30;
+pub mod c31;
 
 pub fn all() -> Vec<Prop> {
-    vec![c01::prop(), c02::prop(), c03::prop(), c30::prop()]
+    vec![c01::prop(), c02::prop(), c03::prop(), c22::prop(), c30::prop(), c31::prop()]
 }
 
 /// Auxiliary child entry points used by custom stages (`verif aux --prop ID ...`).
-pub fn aux(id: &str, _args: &[String]) -> i32 {
+pub fn aux(id: &str, args: &[String]) -> i32 {
     match id {
+        "C22" => c22::aux(args),
+        "C31" => c31::aux(args),
         _ => {
             eprintln!("no aux entry for {}", id);
             4
